@@ -84,6 +84,8 @@ def _ops():
         ('conv_brackets_multi', dict(src=('B', 'brackets'), argv=['transform', '{src}', '{dest}', '--src-format', 'brackets',
                                                                    '--dest-format', 'brackets', '--dest-opts', 'brackets_emptyroot'])),
         ('conv_disco_export', dict(src=('E', 'discobrackets'), argv=['transform', '{src}', '{dest}', '--src-format', 'discobrackets'])),
+        ('conv_disco_reordered', dict(src=('E', 'discobrackets'), argv=['transform', '{src}', '{dest}', '--src-format', 'discobrackets',
+                                                                       '--dest-format', 'tigerxml', '--src-opts', 'disco_reordered'])),
         ('conv_export_disco', dict(src=('F', 'export'), argv=['transform', '{src}', '{dest}', '--dest-format', 'discobrackets',
                                                                '--dest-opts', 'gf'])),
         ('insert_F1', dict(src=('E', 'export'), terms='F1', argv=['transform', '{src}', '{dest}', '--trans', 'insert_terminals',
@@ -399,8 +401,11 @@ def _api_interleaved_readers(src, dest):
             treeoutput.export(t, f, boyd_split_numbering=True)
 
 
-EMPTY_SENTENCE_OP = 2        # plain export -> export conversion also gets a sentence without tokens
+EMPTY_SENTENCE_OP = 4        # plain export -> export conversion also gets a sentence without tokens
 CONCAT_OPS = [
+    ('export-gzcat', ['transform', '{src}', '{dest}'], 'export', 'dest'),
+    ('discobrackets', ['transform', '{src}', '{dest}', '--src-format', 'discobrackets', '--dest-format', 'tigerxml',
+                       '--src-opts', 'disco_reordered'], 'tigerxml-noid', 'dest'),
     ('export', _api_list_then_transform, 'export', 'dest'),
     ('export', _api_interleaved_readers, 'export', 'dest'),
     ('export', ['transform', '{src}', '{dest}'], 'export', 'dest'),
@@ -432,7 +437,18 @@ def _run_concat(cli, wd, fmt, argv, mts, out_name):
     d = os.path.join(wd, 'c%d' % next(_seq))
     os.makedirs(d)
     src = os.path.join(d, 'src')
-    with open(src, 'w', encoding='utf-8') as f:
+    if fmt == 'export-gzcat':
+        # the concatenation is made at the gzip level: one member per sentence
+        import gzip as _gzip
+        src += '.gz'
+        with open(src, 'wb') as f:
+            for m in mts:
+                f.write(_gzip.compress(codecs.encode_export([m]).encode('utf-8')))
+    elif fmt == 'discobrackets':
+        with open(src, 'w', encoding='utf-8') as f:
+            f.write(codecs.encode_discobrackets(mts))
+    else:
+      with open(src, 'w', encoding='utf-8') as f:
         if fmt == 'export':
             # ('EMPTY', sid) stands for a sentence without any token: '#BOS k / #EOS k'
             f.write(''.join('#BOS %d\n#EOS %d\n' % (m[1], m[1]) if isinstance(m, tuple) else codecs.encode_export([m])
@@ -464,6 +480,8 @@ def _interpret(kind, text):
         return _decode_any(kind, text)
     if kind == 'brackets-noid':
         return _decode_any('brackets', text)
+    if kind == 'tigerxml-noid':
+        return [x[1:] for x in _decode_any('tigerxml', text)]
     if kind == 'pmcfg':
         return collections.Counter({(f, l): c for f, lins in decode_pmcfg(text).items() for l, c in lins.items()})
     if kind == 'lex':
@@ -484,10 +502,10 @@ def _interpret(kind, text):
 def check_concat(op_i, ia, ib):
     fmt, argv, kind, out_name = CONCAT_OPS[op_i]
     disc_pool, cont_pool = concat_pool()
-    P = disc_pool if fmt == 'export' else cont_pool
+    P = cont_pool if fmt == 'brackets' else disc_pool
     A = [('EMPTY', k + 1) if m is None else model.MT(k + 1, m.toks, m.root) for k, m in enumerate(P[ia])]
     B = [('EMPTY', len(A) + k + 1) if m is None else model.MT(len(A) + k + 1, m.toks, m.root) for k, m in enumerate(P[ib])]
-    Bsolo = B if fmt == 'export' else [model.MT(k + 1, m.toks, m.root) for k, m in enumerate(P[ib])]
+    Bsolo = B if fmt.startswith('export') else [('EMPTY', k + 1) if m is None else model.MT(k + 1, m.toks, m.root) for k, m in enumerate(P[ib])]
     if any(isinstance(m, tuple) for m in A + B) and op_i != EMPTY_SENTENCE_OP:
         return []
     wd = os.path.join(scratch(), 'c18c')
@@ -622,7 +640,7 @@ def run_chunk(chunk):
     elif kind == 'concat':
         disc_pool, cont_pool = concat_pool()
         fmt = CONCAT_OPS[chunk['op']][0]
-        n = len(disc_pool if fmt == 'export' else cont_pool)
+        n = len(cont_pool if fmt == 'brackets' else disc_pool)
         for ia in range(n):
             for ib in range(n):
                 vs = check_concat(chunk['op'], ia, ib)
